@@ -120,3 +120,34 @@ def c05_spin(ctx, case):
     want = sign * 1.25 * (sg + 1.2) * M.pow(time, 1.83) / 12
     ctx.check_eq('spin_drift', got, want, rel=1e-9, abs=1e-12)
     ctx.check('drift_sign_follows_twist', ctx.implies(time > 0, got * sign > 0))
+
+
+@harness('C05.reuse', 'C05', functions=FUNCS + ['py_ballisticcalc.trajectory_calc._trajectory_calc.TrajectoryCalc._init_trajectory'],
+         engine_opts={'div_check': False, 'pin_check': True},
+         must_reach=['check:stability_is_for_the_current_shot'],
+         bounds='the per-shot constants after _init_trajectory on a REUSED solver object: a first shot (symbolic atmosphere 1, dimensioned bullet) then a second shot '
+                '(symbolic atmosphere 2; dimensioned or un-dimensioned bullet): stability coefficient, weight, twist, look angle are those of the second shot',
+         stubs=['pow/sqrt/exp summarised'])
+def c05_reuse(ctx):
+    p, tc = pybc(), _tc()
+    U = p.Unit
+    from py_ballisticcalc.interface_config import create_interface_config
+    t1, p1 = ctx.real('temp1_f', -40, 120), ctx.real('press1_inhg', 20, 32)
+    t2, p2 = ctx.real('temp2_f', -40, 120), ctx.real('press2_inhg', 20, 32)
+    dm_full = p.DragModel(0.3, p.TableG7, U.Grain(168.0), U.Inch(0.308), U.Inch(1.2))
+    dm_bare = p.DragModel(0.3, p.TableG7)
+    calc = tc.TrajectoryCalc(create_interface_config(None))
+
+    def shot(dm, tf, pi_):
+        return p.Shot(p.Weapon(U.Inch(2.0), U.Inch(11.0)), p.Ammo(dm, U.FPS(2700.0)), atmo=p.Atmo(U.Foot(0.0), U.InHg(pi_), U.Fahrenheit(tf), 0.0))
+    for second in ('full', 'bare'):
+        calc._init_trajectory(shot(dm_full, t1, p1))
+        calc._init_trajectory(shot(dm_full if second == 'full' else dm_bare, t2, p2))
+        if second == 'full':
+            T = 11.0 / 0.308
+            L = 1.2 / 0.308
+            sg = 30 * 168.0 / (T * T * 0.308 ** 3 * L * (1 + L * L)) * M.pow(2700.0 / 2800, 1.0 / 3.0) * ((t2 + 460) / 519) * (29.92 / p2)
+            ctx.check_eq('stability_is_for_the_current_shot', calc.stability_coefficient, sg, rel=1e-9, info={'second': second})
+        else:
+            ctx.check_eq('stability_is_for_the_current_shot', calc.stability_coefficient, 0, info={'second': second})
+            ctx.check_eq('no_spin_drift_without_dimensions', calc.spin_drift(1.0), 0)
